@@ -73,6 +73,9 @@ func (c09Sys) Root() *c09State {
 		Accounts: map[string]sdk.Coins{"alice": nil, "bob": nil, "executor": nil, "admin": nil,
 			"stranger": sdk.NewCoins(sdk.NewInt64Coin(c09Native, 5))},
 	})
+	// the native token has display metadata in the bank, as a fee token usually has; that does not make it an L1 token
+	w.BK.SetDenomMetaData(w.Ctx, banktypes.Metadata{Base: c09Native, Display: "min", Name: "native fee token", Symbol: "MIN",
+		DenomUnits: []*banktypes.DenomUnit{{Denom: c09Native, Exponent: 0}, {Denom: "min", Exponent: 6}}})
 	s := &c09State{ctx: w.Ctx, w: w, nextL1: 1, nextL2: 1, bal: map[string]int64{"stranger/" + c09Native: 5}, supply: map[string]int64{c09Native: 5}, pairs: map[string]string{}}
 	return s
 }
